@@ -110,15 +110,22 @@ func verifCM(args []string) string {
 
 // ---------------------------------------------------------------- qm: outgoing queues, explicit clock
 //
-// "turbotunnel qm <cap> <timeout> <ops>...": the histories of coq/Model/QueueConn.v [qstep]
-// (QWrite, QOutRecv, QHeldRecv, QSweep) against clientMapInner and the records' channels, with
-// chosen clock readings and no sleeping.  ClientMap.trySend / SendQueue read time.Now(), so the
-// driver performs their bodies on the inner map with the instant of the case:
+// "turbotunnel qm <cap> <timeout> <ops>...": the histories of coq/Model/QueueConn.v [qstep] (every
+// operation: QWrite, QOutRecv, QHeldRecv, QSweep, QIncoming, QRead, QClose) against a real
+// QueuePacketConn, with chosen clock readings and no sleeping.  The conn is built without
+// NewClientMap, so no sweeper goroutine runs: the sweeps are the case's.  The exported methods read
+// time.Now(); the driver calls them and then puts the instant of the case into the record they
+// touched (inner.SendQueue(addr, now): LastSeen = now, heap.Fix), before anything else looks at it:
 //
-//	w<addr>:<payload>@<now>  QueuePacketConn.WriteTo = copy the packet; select { case inner.SendQueue(addr, now) <- buf: default: }
-//	o<addr>@<now>            OutgoingQueue(addr) = inner.SendQueue(addr, now); non-blocking receive on it
+//	w<addr>:<payload>@<now>  conn.WriteTo(p, addr); when it succeeded: inner.SendQueue(addr, now)   (E when it failed:
+//	                         then the map must not have been touched, which the printed map shows)
+//	o<addr>@<now>            conn.OutgoingQueue(addr), inner.SendQueue(addr, now) (the same channel); non-blocking receive on it
 //	h<k>                     non-blocking receive on the k-th queue ever handed out
 //	e<now>                   inner.removeExpired(now, timeout)       (the sweeper's body)
+//	i<addr>:<payload>        conn.QueueIncoming(p, addr)
+//	r<n>                     conn.ReadFrom(buf[n]), non-blocking view: a sentinel packet is queued behind whatever is
+//	                         there, so the call returns; B when it returned the sentinel; the sentinel is taken out again
+//	c                        conn.Close()
 //
 // After every operation the whole map is printed: every live record (address, last seen, queue
 // identity, queue contents) and the identities of the closed queues.  A receive on a queue that
@@ -156,7 +163,14 @@ func verifQM(args []string) string {
 		v, err := strconv.ParseInt(s, 10, 64)
 		return base.Add(time.Duration(v) * time.Millisecond), err == nil
 	}
-	inner := &clientMapInner{byAge: make([]*clientRecord, 0), byAddr: make(map[net.Addr]int)}
+	conn := &QueuePacketConn{
+		clients:   &ClientMap{inner: clientMapInner{byAge: make([]*clientRecord, 0), byAddr: make(map[net.Addr]int)}},
+		localAddr: verifAddr(0),
+		recvQueue: make(chan taggedPacket, queueSize),
+		closed:    make(chan struct{}),
+	}
+	inner := &conn.clients.inner
+	const sentinel = verifAddr(-77)
 	qid := map[chan []byte]int{}
 	var queues []chan []byte
 	// queues that are no longer in the map: drained once into rest (a closed channel cannot be
@@ -278,19 +292,16 @@ func verifQM(args []string) string {
 			if err1 != nil || err2 != nil || !ok {
 				return "!badop"
 			}
-			// WriteTo: copy, then trySend's body with the case's clock
-			buf := make([]byte, len(p))
-			copy(buf, p)
-			ch := inner.SendQueue(verifAddr(a), now)
-			idOf(ch)
-			select {
-			case ch <- buf:
-			default:
-			}
+			n, werr := conn.WriteTo(p, verifAddr(a))
 			for k := range p {
-				p[k] ^= 0xa5
+				p[k] ^= 0xa5 // the caller owns p again
 			}
-			res = "n" + strconv.Itoa(len(buf))
+			if werr != nil {
+				res = "E"
+			} else {
+				idOf(inner.SendQueue(verifAddr(a), now)) // the record WriteTo touched, at the case's instant
+				res = "n" + strconv.Itoa(n)
+			}
 		case 'o':
 			parts := strings.Split(t[1:], "@")
 			if len(parts) != 2 {
@@ -301,10 +312,14 @@ func verifQM(args []string) string {
 			if err1 != nil || !ok {
 				return "!badop"
 			}
+			och := conn.OutgoingQueue(verifAddr(a))
 			ch := inner.SendQueue(verifAddr(a), now)
 			idOf(ch)
+			if (<-chan []byte)(ch) != och {
+				return "!queue-identity"
+			}
 			select {
-			case p, ok := <-ch:
+			case p, ok := <-och:
 				if ok {
 					res = "x" + wire.Hex(p)
 					for k := range p {
@@ -353,6 +368,66 @@ func verifQM(args []string) string {
 			}
 			inner.removeExpired(now, timeout)
 			res = "-"
+		case 'i':
+			j := strings.IndexByte(t, ':')
+			if j < 0 {
+				return "!badop"
+			}
+			a, err1 := strconv.Atoi(t[1:j])
+			p, err2 := wire.Payload(t[j+1:])
+			if err1 != nil || err2 != nil {
+				return "!badop"
+			}
+			conn.QueueIncoming(p, verifAddr(a))
+			for k := range p {
+				p[k] ^= 0xa5
+			}
+			res = "-"
+		case 'r':
+			n, err1 := strconv.Atoi(t[1:])
+			if err1 != nil {
+				return "!badop"
+			}
+			// behind whatever is queued (dropped when the queue is full or the conn closed: then ReadFrom returns anyway)
+			conn.QueueIncoming([]byte{0x5e}, sentinel)
+			buf := make([]byte, n)
+			got, ra, rerr := conn.ReadFrom(buf)
+			switch {
+			case rerr != nil:
+				res = "E"
+			case ra == sentinel:
+				res = "B"
+			default:
+				va, ok := ra.(verifAddr)
+				if !ok {
+					return "!addr"
+				}
+				res = "x" + wire.Hex(buf[:got]) + "@" + strconv.Itoa(int(va))
+			}
+			for k := range buf {
+				buf[k] ^= 0xa5 // the reader owns its buffer again
+			}
+			// take the sentinel out again, everything else stays in order
+			var keep []taggedPacket
+			for drained := false; !drained; {
+				select {
+				case tp := <-conn.recvQueue:
+					if tp.Addr != sentinel {
+						keep = append(keep, tp)
+					}
+				default:
+					drained = true
+				}
+			}
+			for _, tp := range keep {
+				conn.recvQueue <- tp
+			}
+		case 'c':
+			if err := conn.Close(); err != nil {
+				res = "E"
+			} else {
+				res = "ok"
+			}
 		default:
 			return "!badop"
 		}
